@@ -163,37 +163,42 @@ def runner(pid, prop, tier, seed, scratch, replay=None):
             cases.append(dict(id="c19-%d-a" % len(pairs), ptr=ptr, schedule=[], files=files))
             cases.append(dict(id="c19-%d-b" % len(pairs), ptr=ptr, schedule=[], files=new))
             pairs.append(("/".join(obs) + ".rs", what, not related))
-    results = engine.run(cases, scratch)
     out = dict(evaluations=len(pairs), failures=[], breaks=[], samples=[], notes=[])
     dist = collections.Counter()
     nontrivial = 0
     related_detected = related_total = 0
-    for k, (obs, what, unrelated) in enumerate(pairs):
-        ra, rb = results[2 * k], results[2 * k + 1]
-        for r in (ra, rb):
-            for asp, det in r.diffs:
-                if asp in ("verdict", "fileset"):
-                    out["breaks"].append(dict(aspect=asp, detail=det, case=props.summarise_case(r.case)))
-        dist["%s/%s" % (ra.hv[0], rb.hv[0])] += 1
-        if ra.hv[0] != "ok" or rb.hv[0] != "ok":
-            continue
-        ha, hb = P.file_hashes(ra.h).get(obs), P.file_hashes(rb.h).get(obs)
-        if unrelated:
-            nontrivial += 1
-            dist["unrelated:" + what.split(" ")[0]] += 1
-            if ha != hb:
-                out["failures"].append(dict(clause="C19.unrelated_change_visible", observed=obs, change=what, ptr=ra.case["ptr"],
-                                            detail="%s changed although the change (%s) is outside its import closure" % (obs, what),
-                                            original=ra.case["files"], changed=rb.case["files"]))
-        else:
-            related_total += 1
-            related_detected += ha != hb
-        if replay:
-            print("replay: %s hashes %s vs %s" % (obs, ha, hb))
+    sample_cases = [cases[2 * k] for k in range(min(2, len(pairs)))]
+    BATCH = 400      # pairs per engine run: keeps memory bounded (a result holds the whole dump)
+    for b0 in range(0, len(pairs), BATCH):
+        results = engine.run(cases[2 * b0:2 * (b0 + BATCH)], scratch)
+        for k in range(b0, min(b0 + BATCH, len(pairs))):
+            obs, what, unrelated = pairs[k]
+            ra, rb = results[2 * (k - b0)], results[2 * (k - b0) + 1]
+            for r in (ra, rb):
+                for asp, det in r.diffs:
+                    if asp in ("verdict", "fileset"):
+                        out["breaks"].append(dict(aspect=asp, detail=det, case=props.summarise_case(r.case)))
+            dist["%s/%s" % (ra.hv[0], rb.hv[0])] += 1
+            if ra.hv[0] != "ok" or rb.hv[0] != "ok":
+                continue
+            ha, hb = P.file_hashes(ra.h).get(obs), P.file_hashes(rb.h).get(obs)
+            if unrelated:
+                nontrivial += 1
+                dist["unrelated:" + what.split(" ")[0]] += 1
+                if ha != hb:
+                    out["failures"].append(dict(clause="C19.unrelated_change_visible", observed=obs, change=what, ptr=ra.case["ptr"],
+                                                detail="%s changed although the change (%s) is outside its import closure" % (obs, what),
+                                                original=ra.case["files"], changed=rb.case["files"]))
+            else:
+                related_total += 1
+                related_detected += ha != hb
+            if replay:
+                print("replay: %s hashes %s vs %s" % (obs, ha, hb))
+        del results
     out["distinct_nontrivial"] = nontrivial
     out["distribution"] = dict(dist)
     out["distribution"]["related_changes_that_changed_the_file"] = "%d/%d" % (related_detected, related_total)
     if related_total and not related_detected:
         out["notes"].append("sanity: no related change altered the observed file -- the comparison may be blind")
-    out["samples"] = [dict(observed=pairs[k][0], change=pairs[k][1], original=results[2 * k].case["files"]) for k in range(min(2, len(pairs)))]
+    out["samples"] = [dict(observed=pairs[k][0], change=pairs[k][1], original=sample_cases[k]["files"]) for k in range(min(2, len(pairs)))]
     return out
